@@ -14,6 +14,9 @@ type VerifTypeFlags struct {
 	BinaryMarshaler, BinaryMarshalerPtr, BinaryUnmarshaler, BinaryUnmarshalerPtr bool
 	JsonMarshaler, JsonMarshalerPtr, JsonUnmarshaler, JsonUnmarshalerPtr         bool
 	TextMarshaler, TextMarshalerPtr, TextUnmarshaler, TextUnmarshalerPtr         bool
+
+	// the builtin shortcuts taken for struct fields, slice/array elements, map keys/values and top-level values
+	EncBuiltin, DecBuiltin bool
 }
 
 // VerifTypeFlagsOf reads the typeInfo flags and handle facts the guard chains test.
@@ -39,5 +42,6 @@ func VerifTypeFlagsOf(h Handle, rt reflect.Type) (f VerifTypeFlags) {
 	f.JsonUnmarshaler, f.JsonUnmarshalerPtr = ti.flagJsonUnmarshaler, ti.flagJsonUnmarshalerPtr
 	f.TextMarshaler, f.TextMarshalerPtr = ti.flagTextMarshaler, ti.flagTextMarshalerPtr
 	f.TextUnmarshaler, f.TextUnmarshalerPtr = ti.flagTextUnmarshaler, ti.flagTextUnmarshalerPtr
+	f.EncBuiltin, f.DecBuiltin = ti.flagEncBuiltin, ti.flagDecBuiltin
 	return
 }
